@@ -77,7 +77,7 @@ pub fn exec(case: &Value) -> Value {
         }
         "tpl_load" => {
             let mut outs: Vec<Value> = vec![];
-            for _ in 0..case["instances"].as_u64().unwrap_or(4) {
+            for inst in 0..case["instances"].as_u64().unwrap_or(4) {
                 let r = catch_unwind(AssertUnwindSafe(|| {
                     let mut c = Compiler::new();
                     let mut loads = vec![];
@@ -90,9 +90,20 @@ pub fn exec(case: &Value) -> Value {
                         });
                     }
                     let ry = format!("---\n{}", rule_yaml(&case["rule"]));
-                    let l = match c.load_rules_from_str(&ry) {
-                        Ok(()) => json!("ok"),
-                        Err(e) => crate::canon::compiler_err_kind(&e),
+                    // the rule enters through the text loader, or as a `Rule` value through `Compiler::load`: the same thing
+                    let l = if inst % 2 == 1 {
+                        match Rule::from_str(&ry) {
+                            Ok(r) => match c.load(r) {
+                                Ok(()) => json!("ok"),
+                                Err(e) => crate::canon::compiler_err_kind(&e),
+                            },
+                            Err(_) => json!("serde"),
+                        }
+                    } else {
+                        match c.load_rules_from_str(&ry) {
+                            Ok(()) => json!("ok"),
+                            Err(e) => crate::canon::compiler_err_kind(&e),
+                        }
                     };
                     // templates that arrive after the rule was loaded do not apply to it
                     let mut late = vec![];
